@@ -9,7 +9,13 @@ Probes == << <<<<1, 2>>, <<3, 2>>, <<2, 1>>, <<5, 4>>>>,          \* inside ever
 VARIABLES layout, pi, out
 \* layouts: number of variables n, an assignment of variables to at most 3 slots (surjective onto 1..m), an order inside each slot,
 \* a type per slot, and the order of the slots in the list handed to JointPrior
-Init == /\ \E n \in 2..MaxVars, m \in 1..3 :
+\* "wide" layouts: ONE component over WideN variables (hyper-parameters still functions of the index: sigma up to 2^46, beta up to 2^47),
+\* probed where every exact intermediate is small (Gaussian at its mean, exponential at 0, uniform at 1); values only
+WideN == 48
+WideLayout(ty) == << [type |-> ty, vars |-> [i \in 1..WideN |-> i]] >>
+WideTheta(ty) == [v \in 1..WideN |-> CASE ty = "G" -> Mean(v) [] ty = "E" -> RZero [] ty = "U" -> ROne]
+NarrowInit ==
+        /\ \E n \in 2..MaxVars, m \in 1..3 :
              \E asg \in [1..n -> 1..m] :
                /\ \A s \in 1..m : \E v \in 1..n : asg[v] = s
                /\ \E types \in [1..m -> {"G", "E", "U"}], order \in Perms(1..m) :
@@ -17,9 +23,14 @@ Init == /\ \E n \in 2..MaxVars, m \in 1..3 :
                        /\ \A s \in 1..m : inner[s] \in Perms({v \in 1..n : asg[v] = s})
                        /\ layout = [k \in 1..m |-> [type |-> types[order[k]], vars |-> inner[order[k]]]]
         /\ pi \in 1..Len(Probes) /\ out = 0
+Init == \/ (\E ty \in {"G", "E", "U"} : layout = WideLayout(ty)) /\ pi = 0 /\ out = 0
+        \/ NarrowInit
 Theta == [v \in 1..NVars(layout) |-> Probes[pi][v]]
 Next == /\ out = 0 /\ out' = 1 /\ UNCHANGED <<layout, pi>>
-        /\ PrintT(ToJson([layout |-> layout, theta |-> Theta, inside |-> Inside(layout, Theta),
+        /\ IF pi = 0
+           THEN PrintT(ToJson([wide |-> TRUE, layout |-> layout, theta |-> WideTheta(layout[1].type),
+                               value |-> JointValue(layout, WideTheta(layout[1].type))]))
+           ELSE PrintT(ToJson([layout |-> layout, theta |-> Theta, inside |-> Inside(layout, Theta),
                           value |-> JointValue(layout, Theta), grad |-> JointGrad(layout, Theta), bounds |-> JointBounds(layout),
                           draw |-> JointDraw(layout), requests |-> [k \in 1..Len(layout) |-> Request(layout[k])]]))
 Formed == WellFormed(layout)
